@@ -432,18 +432,38 @@ func FSReadFile(name string) ([]byte, error) {
 	return os.ReadFile(name)
 }
 
-// FSOpen materialises the simulated content in an unlinked temporary file.
+// FSOpen materialises the simulated content in an unlinked temporary file and hands out an
+// *os.File that carries the simulated name (so that error texts of later reads name the path
+// the code under test opened, as on a real disk).
 func FSOpen(name string) (*os.File, error) {
 	d := sim()
 	if d == nil {
 		return os.Open(name)
 	}
+	renamed := func(f *os.File) (*os.File, error) {
+		fd, err := syscall.Dup(int(f.Fd()))
+		f.Close()
+		if err != nil {
+			fatalf("FSOpen: dup: %v", err)
+		}
+		return os.NewFile(uintptr(fd), name), nil
+	}
 	// Opening a directory succeeds on a real disk; reads then fail with EISDIR.
 	p := d.abs(name)
-	if k, _ := d.lookup(p); k == nDir {
-		d.nextFault()
+	d.mu.Lock()
+	k, _ := d.lookup(p)
+	d.mu.Unlock()
+	if k == nDir {
+		d.mu.Lock()
+		_, faulted := d.nextFault()
 		d.log("open", name, nil, 0, FNone)
-		return os.Open(os.TempDir())
+		d.mu.Unlock()
+		_ = faulted
+		f, err := os.Open(os.TempDir())
+		if err != nil {
+			fatalf("FSOpen: %v", err)
+		}
+		return renamed(f)
 	}
 	c, err := d.content("open", "open", name)
 	if err != nil {
@@ -460,7 +480,7 @@ func FSOpen(name string) (*os.File, error) {
 	if _, err := f.Seek(0, 0); err != nil {
 		fatalf("FSOpen: %v", err)
 	}
-	return f, nil
+	return renamed(f)
 }
 
 func FSOpenFile(name string, flag int, perm os.FileMode) (*os.File, error) {
